@@ -14,7 +14,7 @@ from c01_solvers2 import (ORCH_H, A_HANDLES, SIDE_RULES, PSPMV_RULE, UF_DECL, UF
 GM3_ATOM = r'(?:\(\w+ = norm\((?:[^()]|\([^()]*\))*\)\)|' + GM_SCALAR_ATOM[3:]
 # assignments to any lvalue whose right-hand side contains a binary arithmetic operator -- as UF_ASSIGN_LV of c01_solvers2, but never the
 # initialiser of a for header (for(unsigned i = k + 1; ...) is index arithmetic)
-UF_ASSIGN_LV3 = UF(r'^\s*(?!for\b)[^;=\n{}]+?\s=\s(?P<e>[^;=?\n]*\s[-+*/]\s[^;=?\n]*);', None)
+UF_ASSIGN_LV3 = UF(r'^(?!\s*for\b)\s*[^;=\n{}]+?\s=\s(?P<e>[^;=?\n]*\s[-+*/]\s[^;=?\n]*);', None)
 # rules every GMRES-family body needs after the basis / scalar-array rules
 GM_TAIL_RULES = [
     Rule(r'\beps<scalar_type>\((\d+)\)', r'EPS(\1)', None, why='amgcl::detail::eps<T>(n) -> uninterpreted constant'),
@@ -459,7 +459,7 @@ typedef struct kret { size_t iter; V res_norm; } kret;
 __CPROVER_requires(UF_AXIOMS && ALLOC_IDRS && g_thrown == 0 && iter_in < self->prm.maxiter) \
 __CPROVER_requires(VEC_KEEP && BAS_KEEP && SC_KEEP && gs.sc.hi[SC_f] >= self->prm.s && PAIRING(res_norm_in) && STEPS_R == iter_in) \
 __CPROVER_assigns(*x_p, g_thrown, *self->r, *self->v, *self->t, *self->x_s, *self->r_s, gs) \
-__CPROVER_ensures(VEC_KEEP0 && BAS_KEEP && (self->prm.s > 0 ==> gs.pa.calls >= 1)) \
+__CPROVER_ensures(VEC_KEEP0 && BAS_KEEP) \
 __CPROVER_ensures(g_thrown ==> self->prm.s > 0) \
 __CPROVER_ensures(!g_thrown ==> (KRET.iter <= self->prm.maxiter && VEC_KEEP && SC_KEEP && PAIRING(KRET.res_norm))) \
 /* one x / r update per pass; the pass that meets the tolerance is not counted */ \
@@ -532,8 +532,8 @@ __CPROVER_ensures(!g_thrown && RET.iters == 0 && x_p->version == OLD(x_p->versio
 #endif
 /* a thrown breakdown leaves x defined; rhs and A are in no assigns clause; the shadow space P is never written */
 __CPROVER_ensures(x_p->defined && x_p->id == OLD(x_p->id) && !x_p->readonly && gs.bas.writes[B_P] == OLD(gs.bas.writes[B_P]))
-/* a breakdown is reported only after the re-initialisation and at least one application of the preconditioner */
-__CPROVER_ensures(g_thrown ==> (!EARLY(self) && !CONV(self) && gs.pa.calls >= 1 && gs.bas.upto[B_G] >= self->prm.s && gs.bas.upto[B_U] >= self->prm.s))
+/* a breakdown is reported only after the re-initialisation */
+__CPROVER_ensures(g_thrown ==> (!EARLY(self) && !CONV(self) && gs.bas.upto[B_G] >= self->prm.s && gs.bas.upto[B_U] >= self->prm.s))
 {
   const idrs_params prm = self->prm;
   hv r_h = HV(self->r), v_h = HV(self->v), t_h = HV(self->t), x_s_h = HV(self->x_s), r_s_h = HV(self->r_s);
@@ -576,7 +576,7 @@ __CPROVER_decreases(prm.s - i)
 ID_K = r"""
 __CPROVER_assigns(k, iter, res_norm, g_thrown, *x_p, *self->r, *self->v, *self->t, *self->x_s, *self->r_s, gs)
 __CPROVER_loop_invariant(k <= prm.s && iter < prm.maxiter && g_thrown == 0 && VEC_KEEP && BAS_KEEP && SC_KEEP && PAIRING(res_norm))
-__CPROVER_loop_invariant(STEPS_R == iter && gs.sc.hi[SC_f] >= prm.s && gs.sc.hi[SC_c] >= k && (k > 0 ==> gs.pa.calls >= 1))
+__CPROVER_loop_invariant(STEPS_R == iter && gs.sc.hi[SC_f] >= prm.s && gs.sc.hi[SC_c] >= k)
 __CPROVER_decreases(prm.s - k)
 """
 ID_CI = r"""
@@ -689,7 +689,7 @@ KLOOP_CONTRACT
 /*@CUT:khead@*/
 __CPROVER_assigns(k, iter, res_norm, g_thrown, *x_p, *self->r, *self->v, *self->t, *self->x_s, *self->r_s, gs)
 __CPROVER_loop_invariant(k <= prm.s && iter < prm.maxiter && g_thrown == 0 && VEC_KEEP && BAS_KEEP && SC_KEEP && PAIRING(res_norm))
-__CPROVER_loop_invariant(STEPS_R == iter && gs.sc.hi[SC_f] >= prm.s && gs.sc.hi[SC_c] >= k && (k > 0 ==> gs.pa.calls >= 1))
+__CPROVER_loop_invariant(STEPS_R == iter && gs.sc.hi[SC_f] >= prm.s && gs.sc.hi[SC_c] >= k)
 __CPROVER_decreases(prm.s - k)
   {
 /*@CUT:kbody@*/
